@@ -98,6 +98,25 @@ Proof.
 Qed.
 Print Assumptions C07_deadlock_free.
 
+(* ... and every execution can be completed: from every reachable state there is a continuation in which all
+   remaining calls of all threads run to their end *)
+Theorem C07_can_complete :
+  forall (Local Value : Type) (begin_local : nat -> Local) (rd_eff : Local -> loc -> Value -> Local)
+         (wr_eff : Local -> loc -> Value * Local) (send_val : Local -> Value) (sends_ready : tid -> bool)
+         (M : mtable),
+    locks_ok M = true ->
+    (forall t, sends_ready t = true) ->
+    forall (progs : list (list call)) (l0 : Local) (m0 : loc -> Value) (sched : list tid) (s : state Local Value),
+      Forall (Forall (fun c => path_in M (c_path c))) progs ->
+      run begin_local rd_eff wr_eff send_val sends_ready (init_state l0 m0 progs) sched = Some s ->
+      exists sched' s', run begin_local rd_eff wr_eff send_val sends_ready s sched' = Some s' /\
+                        forall t, next_item s' t = None.
+Proof.
+  intros Local Value bl re we sv sr M H Hs progs l0 m0 sched s Hw Hr.
+  exact (completion bl re we sv sr M progs l0 m0 sched s H Hw Hs Hr).
+Qed.
+Print Assumptions C07_can_complete.
+
 (* (4) on every path of every method with a result channel: either the channel was nil (then nothing is sent or
    closed), or it is closed exactly once — also on the error returns — and nothing is sent after the close;
    methods without a result channel never send or close *)
